@@ -141,10 +141,14 @@ def pick_steps(trace, kmax, rng):
 def _worker(args):
     scn, kmax, idx = args
     sys.path.insert(0, ROOT)
-    from harness import cases, drive, evcases
+    from harness import cases, drive, evcases, initcases
     trace = drive.run(scn)
     cf = cases.CaseFile()
     info = {"steps_checked": []}
+    if trace["init"] is not None:
+        initcases.init_checks(cf, trace, scn["id"])
+        initcases.canon_checks(cf, trace, scn["id"])
+        initcases.create_checks(cf, trace, scn["id"])
     if trace["init"] is not None and trace["steps"]:
         rng = random.Random(f"steps-{scn['id']}")
         P = cases.params_expr(cf, trace["init"])
